@@ -128,12 +128,24 @@ let below_sentinel_footer_only (s : szone) (t : z) =
    1970 (or no transition at all).  The tag is attached to every case on such a
    zone so that known_findings.json can name the family precisely. *)
 let f9_zone (e : zentry) : bool =
-  match Lazy.force e.sz with
-  | Some s ->
-    (match s.sz_footer with
-     | FRule _ -> (match List.rev s.sz_ast.a_times with [] -> true | t :: _ -> zlt t Z0)
-     | _ -> false)
-  | None -> false
+  let by_spec =
+    (match Lazy.force e.sz with
+     | Some s ->
+       (match s.sz_footer with
+        | FRule _ -> (match List.rev s.sz_ast.a_times with [] -> true | t :: _ -> zlt t Z0)
+        | _ -> false)
+     | None -> false) in
+  (* the specification's reader may reject or read the bytes differently (e.g. junk behind the footer) while the
+     loader accepts them: also recognise the family on the LOADED zone - extended, and the 2^31-1 sentinel sits
+     behind generated years that all lie before 1970 *)
+  let by_model =
+    (match Lazy.force e.model with
+     | OK (Some z) when z.z_extended ->
+       (match List.rev z.z_trans with
+        | l :: p :: _ -> Z.compare l.tr_time (z_of_int 2147483647) = Eq && zlt p.tr_time Z0
+        | _ -> false)
+     | _ -> false) in
+  by_spec || by_model
 
 let run_case_inner (a : string array) : string =
   match a.(0) with
